@@ -310,7 +310,7 @@ Lemma rt_step_rel : forall st ev tr,
   let (st', o) := rt_step st ev in
   rt_rel (tr ++ o) (rs_uid st') (rt_nodes (rs_q st')).
 Proof.
-  intros st ev tr Hev R. destruct ev as [dt|s m b cfg r| |s m|s m|s m tok|s reason|]; cbn [rt_step].
+  intros st ev tr Hev R. destruct ev as [dt|s m b cfg r| |s m|s m|s m tok|s reason|tmo|]; cbn [rt_step].
   - cbn. rewrite app_nil_r. exact R.
   - unfold rt_send. set (T := fp_calc_timeout _ _ _ _ _).
     set (n := sq_mk_node _ _ _ _ _ _ _). set (st1 := rt_mk_state _ _ _ _).
@@ -366,6 +366,19 @@ Proof.
     destruct rm as [|n rm].
     + apply rt_rel_neutral; [intros u; reflexivity|]. eapply rt_rel_perm; [exact P|exact R].
     + apply rt_rel_drop_nacked; [cbn in Hev; tauto|]. eapply rt_rel_perm; [exact P|exact R].
+  - unfold rt_io_process, rt_fire_all.
+    pose proof (rt_fire_rel (rt_budget (rs_q st)) st tr R) as H1.
+    destruct (rt_fire (rt_budget (rs_q st)) st) as [st1 o1]. destruct H1 as [R1 _].
+    destruct (rt_wait st1) as [w hd]. set (et := rt_epoll_timeout w tmo).
+    set (st2 := rt_mk_state _ (rs_base st1) (rs_q st1) (rs_uid st1)).
+    assert (R2 : rt_rel ((tr ++ o1) ++ [RoEpoll (rs_now st1) et]) (rs_uid st2) (rt_nodes (rs_q st2)))
+      by (apply rt_rel_neutral; [intros u; reflexivity|exact R1]).
+    pose proof (rt_fire_rel (rt_budget (rs_q st2)) st2 _ R2) as H3.
+    destruct (rt_fire (rt_budget (rs_q st2)) st2) as [st3 o3]. destruct H3 as [R3 _].
+    replace (tr ++ o1 ++ RoEpoll (rs_now st1) et :: o3 ++ [RoIoRet (rs_now st3) (rs_now st3 - rs_now st)])
+      with ((((tr ++ o1) ++ [RoEpoll (rs_now st1) et]) ++ o3) ++ [RoIoRet (rs_now st3) (rs_now st3 - rs_now st)])
+      by (repeat rewrite <- app_assoc; reflexivity).
+    apply rt_rel_neutral; [intros u; reflexivity|exact R3].
   - apply rt_rel_neutral; [intros u; reflexivity|exact R].
 Qed.
 
